@@ -15,6 +15,12 @@ claimed={
  "C10":("exploration","decision matrices of a room read through five construction paths (live, restart, fresh import, update import, restart of importer) after every step of generated histories, each compared with the rights model",T+"differential decision-matrix monitor across construction paths + reference rights model"),
  "C11":("exploration","tombstone monitor after every pull of deletion-centred histories (pull orders exhaustive for 3 peers x length 3, random beyond), and presence/absence check at quiescence",T+"per-peer tombstone invariant monitor over enumerated and random pull orders"),
  "C16":("exploration","stress of 2-3 in-flight mutations of one row (concurrent callers / pipelined stream, reader pool of 4) with the set of serial outcomes as oracle, plus a sequential control",T+"serial-outcome (linearizability style) oracle over stress interleavings"),
+ "C08":("exploration","random request sequences over the 13 request kinds against the real InboundQueryService, across authentication, RoomList and live definition changes delivered through the library's local-event handler; every answer decoded by kind and every served item mapped to its room, membership decided by the rights model",T+"boundary answer-log monitor: decoded items vs reference membership model"),
+ "C12":("exploration","operations performed on one real instance are replayed on another: accepted ones by a real pull and a per-row presence check, refused ones as the rows the operation would have produced, signed with the same key and served by a harness peer",T+"differential verdict monitor between the local path and the synchronisation path"),
+ "C15":("exploration","generated sequences of valid and invalid model versions applied at run time and at start-up on instances holding data; row values, storage identifiers, reported / stored model, index list and query battery compared before/after and across instances",T+"differential monitor of identifiers and row values across versions, restarts and instances"),
+ "C17":("exploration","unique-token text model: after every step of histories with creations, updates, deletions + re-creations, index toggling and pulls, search(token) on each peer must return exactly the stored rows whose current text contains the token",T+"reference text-index model checked after every step on every peer"),
+ "C18":("exploration","subscribers drained into an unbounded log before the workload; after each acknowledged operation (sequential and concurrent phases, pulls, room mutations) and a FIFO barrier, the (room, entity, day) triples derived from before/after storage snapshots must be included in the announced ones",T+"inclusion monitor between storage-diff triples and the recorded event log"),
+ "C19":("exploration","harness-played remote sides over the NewConnection seam of a real Discret: correct, wrong-key, replayed, other-peer, malformed and missing proofs, invitations reused sequentially and racing, altered invitation bytes; trust events must follow a proof by the claimed key of that connection's own challenge",T+"event-log monitor over hostile handshake behaviours + sampled token symmetry"),
  "C20":("exploration","every message sequence up to a bounded length for small (peers, rooms, limit) and random long ones against the real RoomLockService on a current-thread runtime, boundary shadow-state monitor, drain phase for bounded progress",T+"boundary event-log shadow-state monitor over enumerated and random schedules"),
 }
 checks=[]
